@@ -1,28 +1,33 @@
 (* C17 implementation model, part 2: the hand-written join path of Database::query
-   (src/database/database.rs, PlanSource::{NestedLoopJoin, GraceHashJoin, StreamingHashJoin} arm,
-   lines 2116 .. 3250) for a join of TWO base tables with a select list of plain columns, and the
-   finding classes of the SQL-level cases.  Definitions only; proofs in Proof/JoinHw.v.
+   (src/database/database.rs, PlanSource::{NestedLoopJoin, GraceHashJoin, StreamingHashJoin} arm)
+   for a join of TWO base tables, and the finding classes of the SQL-level cases.
+   Definitions only; proofs in Proof/JoinHw.v.
 
-   What the code does (faithfully, including what is wrong):
-   * plan (src/sql/planner/convert.rs:272, src/sql/optimizer/join_analysis.rs:95): if the ON condition,
-     read as a conjunction, contains at least one conjunct `column = column`, a hash join is planned
-     and ONLY those column pairs survive as join keys -- every other conjunct of ON is dropped
-     (finding class 3).  database.rs:2706 then keeps the key pairs with one column on each side;
-     if none is left the join degenerates to a cross product.  Otherwise the plan is a nested loop
-     with the whole ON condition (evaluated by CompiledPredicate: Model/PredImpl.v eval_expr).
-   * hash path (database.rs:2866..2981): rows with a NULL key are skipped; a build table on
-     DefaultHasher over hash_owned_value_normalized (Int hashed as its f64 bit pattern, Float by its
-     bit pattern: 0.0 and -0.0 hash differently, finding class 8), candidates confirmed by
-     owned_values_equal_with_coercion.  The hash is modelled as injective on the normalised key
-     (no SipHash collision).
-   * both paths: a pair that passes the key / ON test is then tested against the WHERE predicate
-     BEFORE the matched flags are set; afterwards LEFT / FULL emit the unflagged left rows and
-     RIGHT / FULL the unflagged right rows, NULL-padded and NOT filtered by WHERE (finding class 4).
-     As a bag the result is therefore  join (ON' AND WHERE)  with no WHERE afterwards.
-   * the memory budget (PRAGMA join_memory_budget) is stored and never read by this path: the
-     model does not depend on it.
-   Not modelled (black box, judged against the reference only): SELECT *, joins of three or
-   more tables (execute_nested_join_recursive / execute_hash_join_recursive). *)
+   State of the code modelled: /repo after the join repairs b0661ca, 0005072, 2cb4862, 07d36f7,
+   5934993, 755317f, 9cb158a, 50ce016 (former finding classes 1, 2, 4, 8, 10 and the residual-conjunct
+   part of class 3 are gone; see known_findings.d/C17.json).
+
+   What the code does:
+   * plan (src/sql/planner/convert.rs is_pure_equi_join): a hash join is planned only when the ON
+     condition is a conjunction of `column = column` equalities and nothing else -- and, when the
+     columns are table-qualified, only when every equality pairs a left with a right column.
+     Otherwise the plan is a nested loop with the whole ON condition (CompiledPredicate:
+     Model/PredImpl.v eval_expr).  With BARE column names the planner cannot tell the sides apart:
+     database.rs (key_indices) then keeps the left-right pairs and silently drops an equality
+     between two columns of the same input (finding class 3, still open).
+   * hash path: rows with a NULL key are skipped; build table on DefaultHasher over
+     hash_owned_value_normalized (Int hashed as its f64 bit pattern, Float by its bit pattern with
+     -0.0 folded onto 0.0), candidates confirmed by owned_values_equal_with_coercion.  The hash is
+     modelled as injective on the normalised key (no SipHash collision).
+   * both paths: a pair that passes the key / ON test marks both rows as matched (outer joins), the
+     WHERE predicate then filters the joined row; LEFT / FULL emit the unmatched left rows and
+     RIGHT / FULL the unmatched right rows NULL-padded, each filtered by WHERE as well.  As a bag:
+     WHERE (join ON').  Predicate pushdown (qualified names) only moves a WHERE conjunct onto an
+     input where that is an equivalence, so it is not visible in the bag.
+   * SELECT * projects every column of the joined row.
+   * the memory budget (PRAGMA join_memory_budget) is stored and never read by this path.
+   Not modelled (black box, judged against the reference only): joins of three or more tables
+   (execute_nested_join_recursive / execute_hash_join_recursive). *)
 From Coq Require Import ZArith List Bool.
 From TV Require Import Model.SqlSpec Model.PredImpl Model.JoinSpec Model.JoinExec.
 Import ListNotations.
@@ -63,7 +68,7 @@ Definition norm_key (v : value) : nkey :=
   match v with
   | VNull => NNull
   | VInt i => NF (f64_bits_of_int i)
-  | VFloat b => NF b
+  | VFloat b => NF (if b =? 2 ^ 63 then 0 else b)
   | VText s => NT s
   | VBool b => NB b
   end.
@@ -103,33 +108,39 @@ Definition ev_status (e : expr) (rows : table) : Z :=
 
 Definition pairs_of (L R : table) : table := flat_map (fun l => map (fun r => l ++ r) R) L.
 
-(* the test a pair has to pass before WHERE *)
-Definition hw_cond (lw : nat) (on : option expr) (l r : row) : bool :=
+(* the ON condition is nothing but `column = column` equalities *)
+Definition pure_equi (e : expr) : bool := forallb is_key (conjuncts e).
+(* does the plan use the hash path?  qual = the harness printed table-qualified column names *)
+Definition hash_plan (lw : nat) (qual : bool) (e : expr) : bool :=
+  pure_equi e && (negb qual || forallb (is_cross_key lw) (conjuncts e)).
+
+(* the test a pair has to pass to count as matched *)
+Definition hw_cond (lw : nat) (qual : bool) (on : option expr) (l r : row) : bool :=
   match on with
   | None => true
   | Some e =>
-      if is_nil (equi_keys e) then ev e (l ++ r)
-      else let ks := cross_keys lw (equi_keys e) in
+      if hash_plan lw qual e
+      then let ks := cross_keys lw (equi_keys e) in
            if is_nil ks then true else hw_key_match ks l r
+      else ev e (l ++ r)
   end.
-Definition hw_uses_hash (lw : nat) (on : option expr) : bool :=
-  match on with Some e => negb (is_nil (cross_keys lw (equi_keys e))) | None => false end.
-(* the predicates the path really evaluates (for the Panic / not-modelled status) *)
-Definition hw_status (lw : nat) (on : option expr) (w : option expr) (L R : table) : Z :=
-  let s1 := match on with Some e => if is_nil (equi_keys e) then ev_status e (pairs_of L R) else 0 | None => 0 end in
-  let s2 := match w with Some e => ev_status e (flat_map (fun l => map (fun r => l ++ r) (filter (hw_cond lw on l) R)) L) | None => 0 end in
-  Z.max s1 s2.
-
 Definition is_some {X} (o : option X) : bool := match o with Some _ => true | None => false end.
 
 Inductive hout := HRows (t : table) | HPanic | HUnmod | HBlack.
 
-Definition hw2 (jt : jtype) (lw rw : nat) (on : option expr) (w : option expr) (sel : list nat) (L R : table) : hout :=
+(* the predicates the path really evaluates (for the Panic / not-modelled status) *)
+Definition hw_status (lw : nat) (qual : bool) (on : option expr) (w : option expr) (joined : table) (L R : table) : Z :=
+  let s1 := match on with Some e => if hash_plan lw qual e then 0 else ev_status e (pairs_of L R) | None => 0 end in
+  let s2 := match w with Some e => ev_status e joined | None => 0 end in
+  Z.max s1 s2.
+
+Definition hw2 (jt : jtype) (lw rw : nat) (qual : bool) (on : option expr) (w : option expr) (sel : option (list nat)) (L R : table) : hout :=
   let on' := opt_on jt on in
-  match hw_status lw on' w L R with
+  let joined := join_rows jt lw rw (hw_cond lw qual on') L R in
+  match hw_status lw qual on' w joined L R with
   | 0 =>
-      let pass := fun l r => hw_cond lw on' l r && match w with Some e => ev e (l ++ r) | None => true end in
-      match project_all (Some sel) (join_rows jt lw rw pass L R) with
+      let kept := match w with Some e => filter (ev e) joined | None => joined end in
+      match project_all sel kept with
       | Some t => HRows t
       | None => HUnmod
       end
@@ -137,67 +148,42 @@ Definition hw2 (jt : jtype) (lw rw : nat) (on : option expr) (w : option expr) (
   | _ => HPanic
   end.
 
-(* qual: the harness printed table-qualified column names (ta.a1).  The optimizer's table analyses
-   (predicate pushdown through joins, join-condition extraction, join reordering by estimated
-   cardinality) only see qualified names and then rewrite a join under a WHERE clause in
-   data-dependent ways; that regime is not modelled (black box, class 10). *)
 Definition hw_model (q : query) (qual : bool) : hout :=
-  match q_tabs q, q_joins q, q_sel q with
-  | [(lw, L); (rw, R)], [(jt, on)], Some sel =>
-      if qual && is_some (q_where q) then HBlack else hw2 jt lw rw on (q_where q) sel L R
-  | _, _, _ => HBlack
+  match q_tabs q, q_joins q with
+  | [(lw, L); (rw, R)], [(jt, on)] => hw2 jt lw rw qual on (q_where q) (q_sel q) L R
+  | _, _ => HBlack
   end.
 
 (* ------------------------------------------------------------------ finding classes of the SQL-level cases *)
-(* 2: SELECT * over a join
-   3: ON contains a `column = column` conjunct together with anything that is not a left-right key
-      (residual conjuncts, same-side equalities): only the left-right keys are kept       [two tables]
-   4: outer join with a WHERE clause: WHERE acts as part of the match condition   [two tables, or the
-      last join of a longer chain]
-   8: hash path and two keys that are equal in SQL but hash differently (0.0 / -0.0)     [two tables]
-  10: WHERE clause and table-qualified column names: the optimizer pushes the whole predicate
-      below the join / reorders the inputs and drops the ON condition (see also C19)     [two tables]
+(* open:
+   3: two tables, bare column names, ON a conjunction of `column = column` equalities one of which
+      compares two columns of the SAME input: that equality is dropped (a cross product if it is alone)
    5: three or more tables, a WHERE clause and table-qualified names (the filter pushed below a nested
       join is ignored by execute_nested_join_recursive)
    6: three or more tables and a `column = column` conjunct in some ON (nested hash joins are not executed)
    7: three or more tables and an outer join other than a LEFT join in last position:
       execute_nested_join_recursive runs every nested join as an inner join, and a final RIGHT / FULL
-      join pads its unmatched rows by the width of the first nested row (0 when the nested join is empty)  *)
+      join pads its unmatched rows by the width of the first nested row
+   fixed in /repo (kept as regression witnesses): 1 hash executors and Int / Float keys, 2 SELECT *,
+   3 (residual ON conjuncts beside a key), 4 WHERE over an outer join, 8 keys 0.0 / -0.0,
+   10 predicate pushdown / join reordering under table-qualified WHERE.  *)
 Definition any_outer (js : list (jtype * option expr)) : bool :=
   existsb (fun j => left_outer (fst j) || right_outer (fst j)) js.
 Definition any_equi (js : list (jtype * option expr)) : bool :=
   existsb (fun j => match opt_on (fst j) (snd j) with Some e => negb (is_nil (equi_keys e)) | None => false end) js.
 
-Definition residual_on (lw : nat) (on : option expr) : bool :=
+Definition same_side_on (lw : nat) (qual : bool) (on : option expr) : bool :=
   match on with
-  | Some e => negb (is_nil (equi_keys e)) && negb (forallb (is_cross_key lw) (conjuncts e))
-  | None => false
-  end.
-(* some pair whose ON is TRUE in SQL although the hash path does not match it *)
-Definition hash_miss (lw : nat) (on : option expr) (L R : table) : bool :=
-  match on with
-  | Some e => hw_uses_hash lw on &&
-              existsb (fun l => existsb (fun r => on_tt e l r && negb (hw_cond lw on l r)) R) L
+  | Some e => negb qual && pure_equi e && negb (forallb (is_cross_key lw) (conjuncts e))
   | None => false
   end.
 
 Definition cls_sql (q : query) (qual : bool) : Z :=
-  match q_sel q with
-  | None => 2
-  | Some _ =>
-      match q_tabs q, q_joins q with
-      | [(lw, L); (rw, R)], [(jt, on)] =>
-          let on' := opt_on jt on in
-          if residual_on lw on' then 3
-          else if (left_outer jt || right_outer jt) && is_some (q_where q) then 4
-          else if qual && is_some (q_where q) then 10
-          else if hash_miss lw on' L R then 8
-          else 0
-      | _, js =>
-          if is_some (q_where q) && qual then 5
-          else if any_equi js then 6
-          else if any_outer (removelast js) || right_outer (fst (last js (JInner, None))) then 7
-          else if any_outer js && is_some (q_where q) then 4
-          else 0
-      end
+  match q_tabs q, q_joins q with
+  | [(lw, L); (rw, R)], [(jt, on)] => if same_side_on lw qual (opt_on jt on) then 3 else 0
+  | _, js =>
+      if is_some (q_where q) && qual then 5
+      else if any_equi js then 6
+      else if any_outer (removelast js) || right_outer (fst (last js (JInner, None))) then 7
+      else 0
   end.
